@@ -69,6 +69,7 @@ type lpFunc struct {
 	mutated  []*types.Var
 	text     string
 	nret     int
+	errRes   bool // ext: the last Go result is `error` (a non-nil error is `Outcome.err`)
 }
 
 type lpGen struct {
@@ -81,6 +82,7 @@ type lpGen struct {
 	tableDefs []string
 	fuels     []string
 	bufSize   int64
+	ext       *lpExt // option / TLV parser extension (loops_opts.go); nil for Gen/Loops.lean
 }
 
 type lpTr struct {
@@ -162,6 +164,9 @@ func (t *lpTr) leanTy(ty types.Type) string {
 		case types.Bool, types.UntypedBool:
 			return "Bool"
 		}
+	}
+	if t.g.ext != nil {
+		return t.extLeanTy(ty)
 	}
 	return ""
 }
@@ -275,6 +280,11 @@ func (t *lpTr) assigned(n ast.Node) map[*types.Var]bool {
 				if v := t.varOf(sel.X); v != nil && t.isLine(v.Type()) {
 					res[v] = true
 				}
+				if t.g.ext != nil {
+					t.extAssignedCall(s, res)
+				}
+			} else if t.g.ext != nil {
+				t.extAssignedCall(s, res)
 			}
 		}
 		return true
@@ -417,6 +427,11 @@ func (t *lpTr) lineField(sel *ast.SelectorExpr) (string, bool) {
 // a byte-sequence valued expression that can be read (Lean term of type Bytes)
 func (t *lpTr) bytesExpr(e ast.Expr, b *lpBinds) string {
 	e = paren(e)
+	if t.g.ext != nil {
+		if s, ok := t.extBytesExpr(e, b); ok {
+			return s
+		}
+	}
 	if cv, ok := t.constOf(e); ok && cv.Kind() == constant.String {
 		return lpBytesLit(constant.StringVal(cv))
 	}
@@ -562,6 +577,11 @@ var lpArith = map[token.Token]string{token.ADD: "+", token.SUB: "-", token.MUL: 
 // a value expression (integers, bools as Bool terms, byte slices)
 func (t *lpTr) expr(e ast.Expr, b *lpBinds) string {
 	e = paren(e)
+	if t.g.ext != nil {
+		if s, ok := t.extExpr(e, b); ok {
+			return s
+		}
+	}
 	lt := t.tyOf(e)
 	if cv, ok := t.constOf(e); ok {
 		switch lt {
@@ -796,6 +816,9 @@ func (t *lpTr) call(c *ast.CallExpr, b *lpBinds, want bool) string {
 		callee, _ = t.info.Uses[f.Sel].(*types.Func)
 		if callee != nil && callee.Type().(*types.Signature).Recv() != nil {
 			v := t.varOf(f.X)
+			if t.g.ext != nil && (v == nil || !t.isLine(v.Type())) {
+				return t.extMethodCall(c, f, callee, b, want)
+			}
 			if v == nil || !t.isLine(v.Type()) {
 				t.refuse(c, "method call on %s (only methods of the *Line receiver variable are supported)", nodeText(f.X))
 			}
@@ -937,6 +960,9 @@ func lpNames(vs []*types.Var) []string {
 
 // simple (non-control) statement → bind lines
 func (t *lpTr) simple(s ast.Stmt, b *lpBinds) {
+	if t.g.ext != nil && t.extSimple(s, b) {
+		return
+	}
 	switch x := s.(type) {
 	case nil:
 	case *ast.EmptyStmt:
@@ -1115,6 +1141,11 @@ func (t *lpTr) block(stmts []ast.Stmt, ind int, j *lpJump, k lpKont) []string {
 	case *ast.BlockStmt:
 		return t.block(append(append([]ast.Stmt{}, x.List...), rest...), ind, j, k)
 	case *ast.ReturnStmt:
+		if t.g.ext != nil {
+			if ls, ok := t.extReturn(x, ind, j); ok {
+				return ls
+			}
+		}
 		if j.ret == nil {
 			t.refuse(s, "return inside a loop")
 		}
@@ -1168,6 +1199,11 @@ func (t *lpTr) block(stmts []ast.Stmt, ind int, j *lpJump, k lpKont) []string {
 		}
 		return append(lines, restK(ind)...)
 	}
+	if t.g.ext != nil {
+		if ls, ok := t.extStmt(s, rest, ind, j, k); ok {
+			return ls
+		}
+	}
 	var b lpBinds
 	t.simple(s, &b)
 	lines = lpPut(lines, ind, &b)
@@ -1188,6 +1224,11 @@ func lpElse(x *ast.IfStmt) []ast.Stmt {
 func (t *lpTr) ifStmt(x *ast.IfStmt, rest []ast.Stmt, ind int, j *lpJump, k lpKont) []string {
 	var lines []string
 	els := lpElse(x)
+	if t.g.ext != nil {
+		if ls, ok := t.extIf(x, rest, ind, j, k); ok {
+			return ls
+		}
+	}
 	if !hasJump(x) {
 		// jump-free: the variables declared outside and assigned inside are returned as a tuple
 		as := t.assigned(x)
@@ -1354,6 +1395,11 @@ func (t *lpTr) forStmt(x *ast.ForStmt, ind int, j *lpJump) []string {
 
 // termination measure of a `for` loop (see the header); refuses when none is recognised
 func (t *lpTr) fuelOf(x *ast.ForStmt) string {
+	if t.g.ext != nil {
+		if f, ok := t.extFuel(x); ok {
+			return f
+		}
+	}
 	be, ok := paren(x.Cond).(*ast.BinaryExpr)
 	if !ok {
 		t.refuse(x, "no termination measure: condition %s", nodeText(x.Cond))
@@ -1655,6 +1701,8 @@ func (g *lpGen) translate(f *types.Func) (res *lpFunc, why string) {
 			if as[v] && t.writtenInPlace(fd.Body, v) {
 				fn.mutated = append(fn.mutated, v)
 			}
+		} else if t.g.ext != nil && t.extParamMutated(fd.Body, v, as) {
+			fn.mutated = append(fn.mutated, v)
 		}
 	}
 	var resTys []string
@@ -1669,10 +1717,18 @@ func (g *lpGen) translate(f *types.Func) (res *lpFunc, why string) {
 		for _, v := range fn.mutated {
 			resTys = append(resTys, t.leanTy(v.Type()))
 		}
-		if sig.Results().Len() > 1 {
+		nres := sig.Results().Len()
+		if t.g.ext != nil && nres > 0 && isErrorType(sig.Results().At(nres-1).Type()) {
+			if sig.Results().At(nres-1).Name() != "" {
+				t.refuse(fd, "named result")
+			}
+			fn.errRes = true
+			nres--
+		}
+		if nres > 1 {
 			t.refuse(fd, "multiple results")
 		}
-		if sig.Results().Len() == 1 {
+		if nres == 1 {
 			if sig.Results().At(0).Name() != "" {
 				t.refuse(fd, "named result")
 			}
